@@ -1,11 +1,14 @@
 (** C06 — lossy decode equals the encoder's own reconstruction (no drift).
     Only statements, each closed by [exact <lemma>] and followed by [Print Assumptions].
-    The whole-frame statement [no_drift_statement] (Vp8EncPath.v) is not proved: it is
-    evaluated on every run by executing the extracted specification decoder on the
-    encoder's output and comparing with the encoder's reconstruction planes. *)
+    The whole-frame statement is proved for the encoder data-path MODEL of Vp8NoDrift.v (choices =
+    header, modes and quantised levels; bytes through the syntax emitter, the Go boolean-encoder model
+    and assembleFrame's layout; reconstruction macroblock by macroblock from the encoder's own
+    step sizes and kernels).  The model is tied to the Go encoder by execution: on every run the
+    hook planes are compared with the extracted specification decoder. *)
 From Coq Require Import List ZArith Bool.
 From WebpGen Require Tables.
-From Webp Require Import Vp8.Vp8Bool Vp8.Vp8Tables Vp8.Vp8Syntax Vp8.Vp8Kernels Vp8.Vp8EncPath.
+From Webp Require Import Base.Res Vp8.Vp8Bool Vp8.Vp8Tables Vp8.Vp8Syntax Vp8.Vp8Kernels Vp8.Vp8EncPath
+  Vp8.Vp8ModeRT Vp8.Vp8Recon Vp8.Vp8Filter Vp8.Vp8Spec Vp8.Vp8FrameRT Vp8.Vp8NoDrift.
 Import ListNotations.
 Open Scope Z_scope.
 
@@ -34,3 +37,33 @@ Print Assumptions C06_skip_sound_partial.
 Theorem C06_level_range_partial : forall a, 1 <= a <= 2114 -> length (level_leaves a) = 1%nat.
 Proof. exact level_range. Qed.
 Print Assumptions C06_level_range_partial.
+
+(** One macroblock: the encoder-side reconstruction (raster levels, setupSegment step sizes,
+    TransformWHT, ITransform onto the prediction, 4x4 blocks one after the other with the
+    above-right rule of the shared work buffer) equals the decoder-side reconstruction of the
+    syntax elements recorded for it, on the same neighbouring samples. *)
+Theorem C06_enc_mb_eq_dec : forall h m e,
+  enc_recon_mb h m e =
+  recon_mb (ms_hdr m) (res_of (seg_dq h (mh_seg (ms_hdr m))) (mh_is4 (ms_hdr m)) (ms_y2 m) (ms_ys m) (ms_us m) (ms_vs m)) e.
+Proof. exact enc_mb_eq_dec. Qed.
+Print Assumptions C06_enc_mb_eq_dec.
+
+(** No drift, whole frame: for every well-formed set of choices (wf_frame_syn: header fields in
+    range, valid modes, levels within +-2114 with proper block ends, context shapes, probabilities
+    bytes) in which only macroblocks without any level are skipped (choices_ok), and whose frame
+    passes the encoder's size guards: the specification decoder reconstructs from the emitted
+    bytes, before the loop filter, exactly the encoder's reconstruction, with the source's
+    dimensions; with loop-filter level 0 the decoded picture is that reconstruction. *)
+Theorem C06_no_drift : forall s bs, wf_frame_syn rfc_quirks s -> choices_ok (fs_rows s) ->
+  fst (enc_frame s) = Ok bs ->
+  decode_unfiltered bs = Ok (snd (enc_frame s)) /\
+  (lf_level (fh_lf (fs_hdr s)) = 0 ->
+   exists r, decode bs = Ok r /\ (dc_w r, dc_h r, dc_filtered r) = snd (enc_frame s)).
+Proof. exact no_drift. Qed.
+Print Assumptions C06_no_drift.
+
+(** the hypotheses of C06_no_drift are met by a concrete frame, and its bytes exist *)
+Theorem C06_no_drift_nonvacuous : wf_frame_syn rfc_quirks ex_frame /\ choices_ok (fs_rows ex_frame) /\
+  exists bs, emit_key_frame rfc_quirks ex_frame = Ok bs.
+Proof. exact ex_frame_wf. Qed.
+Print Assumptions C06_no_drift_nonvacuous.
